@@ -491,9 +491,16 @@ class Func:
                 elif x.get("k") == "Bin" and x["op"] == "=" and sk(x["a"][0]).get("k") == "Ref" and sk(x["a"][0])["ref"]["id"] == pid:
                     rhs = x["a"][1]
             r = sk(rhs)
-            if not (r.get("k") == "Un" and r["op"] == "&" and lvalue_ok(r["a"][0])):
+            decay = False
+            if r.get("k") == "Un" and r["op"] == "&" and lvalue_ok(r["a"][0]):
+                target = sk(r["a"][0])
+            elif (r.get("t") or {}).get("k") == "array" and r.get("k") in ("Sub", "Mem", "Ref") and lvalue_ok(r):
+                # `char *slot = names[i];`: the pointer is the array itself (decayed); only uses as slot[..] or as a bare
+                # pointer value are rewritten
+                target = r
+                decay = True
+            else:
                 continue
-            target = sk(r["a"][0])
             fv = {y["ref"]["id"] for y in walk(target) if y.get("k") == "Ref" and y["ref"].get("rk") in ("local", "param")}
             if pid in fv:
                 continue
@@ -523,7 +530,14 @@ class Func:
                         y.get("k") == "Ref" and y["ref"]["id"] == pid for y in walk(b.term["cond"])):
                     uses.append((b.id, len(b.elems)))
             ok = True
-            if writes:
+            if decay:
+                for b in self.blocks.values():
+                    for e in list(b.elems) + ([b.term["cond"]] if b.term and b.term.get("cond") is not None else []):
+                        for x in walk(e):
+                            if (x.get("k") == "Mem" and x.get("arrow") or x.get("k") == "Un" and x.get("op") == "*") and \
+                                    sk(x["a"][0]).get("k") == "Ref" and sk(x["a"][0])["ref"]["id"] == pid:
+                                ok = False
+            if ok and writes:
                 # forward from the definition: (block, index, dirty)
                 seen = set()
                 stack = [(db, di + 1, False)]
@@ -585,6 +599,10 @@ class Func:
                     return m
                 if k == "Ref" and n["ref"]["id"] == pid:
                     fresh[0] -= 1
+                    if decay:
+                        m = copy(target)
+                        m["n"] = n.get("n", m.get("n"))
+                        return m
                     return {"k": "Un", "op": "&", "a": [copy(target)], "t": n.get("t"), "l": n.get("l"), "n": n.get("n", fresh[0])}
                 out = {}
                 for kk, v in n.items():
